@@ -130,18 +130,21 @@ class CountDistinct(Aggregation):
         self.items = set()
 
     def merge(self, row, schema):
-        self.items.add(tuple(
+        values = tuple(
             col.eval(row, schema) for col in self.columns
-        ))
+        )
+        # rows with a null in one of the columns are not counted
+        if not any(value is None for value in values):
+            self.items.add(values)
 
     def mergeStats(self, other, schema):
-        self.items += other.items
+        self.items |= other.items
 
     def eval(self, row, schema):
         return len(self.items)
 
     def args(self):
-        return f"DISTINCT {','.join(self.columns)}"
+        return (f"DISTINCT {', '.join(str(col) for col in self.columns)}",)
 
 
 class ApproxCountDistinct(Aggregation):
@@ -153,10 +156,12 @@ class ApproxCountDistinct(Aggregation):
         self.items = set()
 
     def merge(self, row, schema):
-        self.items.add(self.column.eval(row, schema))
+        value = self.column.eval(row, schema)
+        if value is not None:
+            self.items.add(value)
 
     def mergeStats(self, other, schema):
-        self.items += other.items
+        self.items |= other.items
 
     def eval(self, row, schema):
         return len(self.items)
